@@ -44,6 +44,8 @@ class ExplicitOption(argparse.Action):
     def __call__(self, parser, namespace, values, option_string=None):
         setattr(namespace, self.dest, values)
         setattr(namespace, self.dest + "__explicit", True)
+        # a sub-parser overwrites dest with its own default; keep the explicit value apart
+        setattr(namespace, self.dest + "__explicit_value", values)
 
 
 def send_fraction(f):
@@ -950,7 +952,7 @@ def main():
     config = Config(**vars(args))
     config.load_config(config_dir=args.config_dir)
     explicit_options = {
-        option: value
+        option: getattr(args, option + "__explicit_value", value)
         for option, value in vars(args).items()
         if getattr(args, option + "__explicit", False)
     }
